@@ -89,8 +89,13 @@ impl WorkspaceIndex {
 
     /// Re-analyze a file by reading it from disk.
     pub fn update_from_disk(&mut self, path: &Path) {
-        if let Ok(content) = std::fs::read_to_string(path) {
-            self.update_from_content(path, &content);
+        match std::fs::read_to_string(path) {
+            Ok(content) => self.update_from_content(path, &content),
+            // There is no such file (any more): what the index knows about it
+            // came from an editor buffer that is gone now.
+            Err(_) => {
+                self.files.remove(path);
+            }
         }
     }
 
